@@ -97,9 +97,12 @@ def theorem_at(path, line):
     return None
 
 
-def step_lake(targets):
-    run([sys.executable, os.path.join(HERE, "genlean.py")])
-    with Lock("lake"):
+def step_lake(targets, prop="x"):
+    with Lock("genlean"):
+        run([sys.executable, os.path.join(HERE, "genlean.py")])
+    # builds of different properties touch disjoint modules (shared ones are prebuilt), so the
+    # lock is per property
+    with Lock("lake-" + prop):
         rc, out = run(["lake", "build"] + targets, cwd=LEAN, timeout=3000)
     return rc, out
 
@@ -384,7 +387,7 @@ def main():
 
     # 2. theorems (+ driver)
     targets = cfg.get("lean_targets", ["SophiaProofs.Props." + prop]) + ["smd_" + prop]
-    rc, out = step_lake(targets)
+    rc, out = step_lake(targets, prop)
     lake_ok = rc == 0
     failing_theorems = []
     if rc != 0:
@@ -397,7 +400,7 @@ def main():
         signals.append({"what": "proof", "name": "; ".join(sorted(set(failing_theorems)))[:2000],
                         "detail": out[-3000:]})
         # make sure the driver exists if only proofs broke
-        rc2, out2 = step_lake(["smd_" + prop])
+        rc2, out2 = step_lake(["smd_" + prop], prop)
         if rc2 != 0:
             signals.append({"what": "model-build", "name": "smd_" + prop, "detail": out2[-2000:]})
 
